@@ -1,4 +1,4 @@
-import BfeVerif.C26.Proofs
+import BfeVerif.C26.Oracle
 /-!
   C26 — hop-by-hop headers are not forwarded.  Property theorems only.  (Model = the code after fix
   C26-connection-tokens; `hopRemoveOld` is the loop before it.)
@@ -9,8 +9,17 @@ import BfeVerif.C26.Proofs
 namespace BfeVerif.C26
 open BfeVerif.C25
 
-/-- The property at full strength, as the executable oracle the driver applies to the real output. -/
-def C26_full : Prop := ∀ h : Hdr, keysOK h = true → violation h (forwarded h) = none
+/-- The property at full strength, as the executable oracle the driver applies to the real output:
+    for every header map a frontend can build (distinct keys, each a token in canonical form), the
+    case-insensitive judgement finds no listed hop-by-hop field, no TE other than `trailers`, and no field
+    named by a token of the Connection header among the forwarded fields. -/
+def C26_full : Prop :=
+  ∀ h : Hdr, (h.map (·.1)).Nodup → keysCanon h = true → violation h (forwarded h) = none
+
+/-- **C26, full strength (after the fix)**: the oracle itself holds — names are compared ignoring case, Connection
+    tokens are taken from every value, split at commas, trimmed and lower-cased exactly as the oracle does. -/
+theorem C26_full_holds : C26_full :=
+  fun h hd hk => oracle_none h (canon_of h hd hk)
 
 /-- **C26 (after the fix), core statement**: a forwarded field never carries a name that is in
     `bfe_basic.HopHeaders` or that is (the canonical form of) a token of the client's `Connection`
@@ -19,15 +28,8 @@ def C26_full : Prop := ∀ h : Hdr, keysOK h = true → violation h (forwarded h
     tokens, optional whitespace). -/
 theorem C26_hop_and_connection_tokens (h : Hdr) (hd : (h.map (·.1)).Nodup) :
     ∀ f ∈ forwarded h, f.1 ∈ hopList BfeVerif.Generated.C26.hopHeaders h →
-      f.1 = kTe ∧ lookup h kTe = [sTrailers] := by
-  intro f hf hk
-  obtain ⟨vs, hm, hne, _⟩ := mem_outFields hf
-  have hmh : (f.1, vs) ∈ h := foldl_hopStep_subset _ hm
-  have hl : lookup h f.1 = vs := lookup_of_mem h f.1 vs hd hmh
-  apply Classical.byContradiction
-  intro hnot
-  have hdel : Deletes h f.1 := ⟨by rw [hl]; exact hne, fun hc => hnot ⟨hc.1, by rw [← hc.1]; exact hc.2⟩⟩
-  exact foldl_hopStep_removes _ h f.1 hk hdel (f.1, vs) hm rfl
+      f.1 = kTe ∧ lookup h kTe = [sTrailers] :=
+  hop_core h hd
 
 /-- the listed names are in the regenerated table, hence covered by the theorem above -/
 theorem C26_table_covers :
@@ -104,5 +106,8 @@ example : forwarded [(kConnection, [sClose]), (kUpgrade, [[104, 50, 99]]), ([88]
 example : forwarded [(kTe, [sTrailers])] = [(kTe, sTrailers)] := by decide
 example : connNames wConnToken = [[88, 45, 70, 111, 111]] := by decide
 example : ((wConnToken.map (·.1)).Nodup) := by decide
+example : keysCanon wConnToken = true ∧ keysCanon wEmptyFirst = true ∧ keysCanon wTeFirst = true := by decide
+/-- a token in another case, with whitespace, in the second Connection value -/
+example : forwarded [(kConnection, [sClose, [32, 120, 45, 70, 79, 111, 9]]), ([88, 45, 70, 111, 111], [[49]]), ([65], [[50]])] = [([65], [50])] := by decide
 
 end BfeVerif.C26
